@@ -38,7 +38,7 @@ pub fn random_constraints(rng: &mut Rng, around: Option<&Joints>) -> ([f64; 6], 
     for i in 0..6 {
         match rng.below(6) {
             0 => { f[i] = 0.0; t[i] = 0.0; }                                        // unconstrained
-            1 => { let c = around.map(|a| a[i]).unwrap_or(rng.range(-3.0, 3.0)); let w = rng.range(0.05, 0.6); f[i] = dy(c - w, 20); t[i] = dy(c + w, 20); } // narrow
+            1 => { let c = around.map(|a| a[i]).unwrap_or(rng.range(-3.0, 3.0)); let w = if rng.below(4) == 0 { rng.range(2e-5, 4e-4) } else { rng.range(0.05, 0.6) }; f[i] = dy(c - w, 30); t[i] = dy(c + w, 30); } // narrow, down to a locked joint (tens of microradians)
             2 => { f[i] = dy(rng.range(0.5, 3.0), 20); t[i] = dy(rng.range(-3.0, -0.5), 20); }        // wrapping
             3 => { f[i] = dy(rng.range(-6.0, 0.0), 20); t[i] = dy(f[i] + rng.range(0.2, 7.0), 20); }  // wide / beyond a turn
             _ => { f[i] = dy(rng.range(-3.1, -0.2), 20); t[i] = dy(rng.range(0.2, 3.1), 20); }
